@@ -257,4 +257,36 @@ theorem FaithfulL_of_strict : ∀ (bl : BL), StrictDictL bl → ShapeOKL bl → 
     exact ⟨Faithful_of_strict b hs.1 ho.1, FaithfulL_of_strict r hs.2 ho.2⟩
 end
 
+/-! ### the strict dictionary clause out of the state invariant -/
+
+mutual
+/-- `StrictDict` is part of `WFB` (Build/Inv.lean: no key designates a value the dictionary does not have) -/
+theorem WFB_StrictDict : ∀ (b : B), WFB b → StrictDict b
+  | .null _ _, _ => by simp only [StrictDict]
+  | .unknownVariant _, _ => by simp only [StrictDict]
+  | .leaf _ _ _ _, _ => by simp only [StrictDict]
+  | .bytes _ _ _ _ _, _ => by simp only [StrictDict]
+  | .bytesView _ _ _ _ _, _ => by simp only [StrictDict]
+  | .fixedSizeBinary _ _ _ _ _ _, _ => by simp only [StrictDict]
+  | .list _ _ _ _ _ el, h => by simp only [StrictDict]; exact WFB_StrictDict el (WFB_list h).2.2
+  | .fixedSizeList _ _ _ _ _ _ el, h => by simp only [StrictDict]; exact WFB_StrictDict el (WFB_fixedSizeList h).2.2
+  | .map _ _ _ _ ks vs, h => by
+    simp only [StrictDict]
+    exact ⟨WFB_StrictDict ks (WFB_map h).2.2.2.1, WFB_StrictDict vs (WFB_map h).2.2.2.2⟩
+  | .struct _ len _ fs _ _ _, h => by
+    simp only [StrictDict]; exact WFBs_StrictDictL fs (WFL_WFBs fs len (WFB_struct h).2)
+  | .dictionary _ idx vals index, h => by
+    simp only [StrictDict]
+    refine ⟨WFB_StrictDict vals (WFB_dictionary h).2.1, ?_⟩
+    simp only [WFB] at h
+    exact h.2.2.2.2
+  | .union _ fs _ _ cur, h => by
+    simp only [StrictDict]; exact WFBs_StrictDictL fs (WFU_WFBs fs cur (WFB_union h).2.1)
+theorem WFBs_StrictDictL : ∀ (fs : BL), WFBs fs → StrictDictL fs
+  | .nil, _ => trivial
+  | .cons b _ r, h => by
+    simp only [WFBs] at h; simp only [StrictDictL]
+    exact ⟨WFB_StrictDict b h.1, WFBs_StrictDictL r h.2⟩
+end
+
 end SaModel.Lemmas.C03
